@@ -133,14 +133,15 @@ func sTriangleOK(t []Point) bool { return sOrient(t[0], t[1], t[2]) != 0 }
 func vClose(v []Point) []Point { return append(append([]Point{}, v...), v[0]) }
 
 // H_API_PolyLine: concrete polygon (exterior + optional hole), symbolic line of m points.
-// params: m, hasHole, kind, then exterior ring (n, coords) and, if hasHole, the hole ring
+// params: m, number of holes, kind, then exterior ring (n, coords) and the hole rings
 func H_API_PolyLine(p []int) {
-	m, hasHole, kind := p[0], p[1] == 1, p[2]
+	m, nHoles, kind := p[0], p[1], p[2]
 	ext, off := vConcreteRing(p, 3)
 	var holesV [][]Point
 	var holesP [][]Point
-	if hasHole {
-		h, _ := vConcreteRing(p, off)
+	for i := 0; i < nHoles; i++ {
+		var h []Point
+		h, off = vConcreteRing(p, off)
 		holesV = append(holesV, h)
 		holesP = append(holesP, vClose(h))
 	}
